@@ -296,6 +296,8 @@ func (b *Batch) flushStaged() error {
 		} else {
 			pos = b.db.index.Put(record.Key, dataPos[i])
 		}
+		// 维护总数据量
+		b.db.totalSize += int64(dataPos[i].Size)
 		if pos != nil {
 			b.db.reclaimSize += int64(pos.Size)
 		}
